@@ -780,6 +780,27 @@ func (ch c10) runCase(c *core.Ctx, envPlain, envAuth *hs.Env, k c10case, idx int
 				c.Count("portals_kept_across_a_second_oversized_message", 1)
 			}
 		}
+		// the same for the unnamed portal. Whether it outlives a Sync at all is this server's business: it is
+		// bound and executed across a Sync once without and once with an oversized message in between, and the
+		// two Executes are answered alike (a refused message has no effect on what the session holds)
+		bindU := append(pg.Bind("", "keep", nil, [][]byte{[]byte(marker)}, nil), pg.Sync()...)
+		if _, ok := expect("Bind of the unnamed portal", bindU, "2Z"); !ok {
+			return
+		}
+		plain, ok := expect("Execute of the unnamed portal after a Sync", append(pg.Execute("", 0), pg.Sync()...), "DCZ", "EZ")
+		if !ok {
+			return
+		}
+		if _, ok := expect("Bind of the unnamed portal", bindU, "2Z"); !ok {
+			return
+		}
+		if _, ok := expect("oversized message", big, "EZ"); !ok {
+			return
+		}
+		if _, ok := expect("Execute of the unnamed portal bound before an oversized message (answered "+plain+" without that message in between)", append(pg.Execute("", 0), pg.Sync()...), plain); !ok {
+			return
+		}
+		c.Count("unnamed_portals_used_across_an_oversized_message", 1)
 	}
 	if inCopy && k.Eff < 1<<22 {
 		// whatever ended the COPY (the client, or the server on an oversized / foreign message): the
